@@ -1,6 +1,6 @@
 """C09 — the cursor always designates an existing row inside the viewport (src/selection.rs)."""
 ID = "C09"
-EXTRA_PROPS = ["CursorFnsTables"]   # the integer cores of the cursor as TRANSLATED from src/selection.rs = the model's functions (Props/CursorFnsTables.lean)
+EXTRA_PROPS = ["CursorFnsTables", "C09Translated"]   # the integer cores of the cursor as TRANSLATED from src/selection.rs = the model's functions (Props/CursorFnsTables.lean)
 N_QUICK, N_THOROUGH = 6000, 400000
 STRICT_MODEL = True
 RULE = ("random histories (<= 60 events, a few up to 200) over {up/down(k), page-up/down(k), half-page-up/down(k), click on row r, "
@@ -251,3 +251,5 @@ def shrink_candidates(case):
             if abs(nv) < abs(v) or (nv >= 0 > v and abs(nv) <= abs(v)):
                 out.append(hd + "|" + " ".join(ops[:i] + ["%s:%d" % (nm, nv)] + ops[i + 1:]))
     return out
+
+TECHNIQUE += " + translator tie: known_height / act_move_line_cursor / act_select_screen_row / the append fix-up / Draw::draw's row mapping translated from src/selection.rs and proved equal to the model's functions for all inputs (Props/CursorFnsTables.lean, C09Translated.lean)"
